@@ -4,6 +4,8 @@ package main
 
 import (
 	"fmt"
+	"os"
+	"runtime"
 	"strings"
 	"time"
 
@@ -28,7 +30,7 @@ import (
 // parser must return nil exactly on the strings the tiny parser rejects.
 
 func init() {
-	vh.Register("portunion", func() vh.Component { return &puComp{} })
+	vh.Register("portunion", func() vh.Component { memGuard(6 << 30); return &puComp{} })
 	vh.RegisterConsts(func() map[string]any {
 		return map[string]any{
 			"udphopPacketQueueSize":      udphop.VerifPacketQueueSize,
@@ -36,6 +38,22 @@ func init() {
 			"udphopDefaultHopIntervalNs": int64(udphop.VerifDefaultHopInterval),
 		}
 	})
+}
+
+// memGuard aborts the harness when the heap explodes (a runaway loop in the code under
+// test must not take the machine down).
+func memGuard(limit uint64) {
+	go func() {
+		var ms runtime.MemStats
+		for {
+			time.Sleep(50 * time.Millisecond)
+			runtime.ReadMemStats(&ms)
+			if ms.HeapAlloc > limit {
+				fmt.Fprintln(os.Stderr, "verif: heap limit exceeded (runaway loop in the code under test?), aborting")
+				os.Exit(3)
+			}
+		}
+	}()
 }
 
 type puComp struct {
@@ -132,6 +150,33 @@ func describe(u utils.PortUnion, ports []uint16) string {
 	return sb.String()
 }
 
+// runaway reports whether the goroutine that will signal on done is in a runaway allocating
+// loop: it is still running after 20 ms AND keeps allocating hundreds of megabytes (a
+// legitimate Ports() allocates well under 1 MB however slow the machine is).  Judging by
+// allocation rather than by time keeps a loaded machine from raising a false alarm.
+func runaway[T any](done <-chan T) (T, bool) {
+	var zero T
+	select {
+	case v := <-done:
+		return v, false
+	case <-time.After(20 * time.Millisecond):
+	}
+	var ms runtime.MemStats
+	runtime.ReadMemStats(&ms)
+	base := ms.TotalAlloc
+	for {
+		select {
+		case v := <-done:
+			return v, false
+		case <-time.After(5 * time.Millisecond):
+			runtime.ReadMemStats(&ms)
+			if ms.TotalAlloc-base > 256<<20 {
+				return zero, true
+			}
+		}
+	}
+}
+
 // callPorts runs u.Ports() with a watchdog: a loop counter that wraps at 65535 never ends.
 func (c *puComp) callPorts(u utils.PortUnion) ([]uint16, bool) {
 	done := make(chan []uint16, 1)
@@ -143,20 +188,19 @@ func (c *puComp) callPorts(u utils.PortUnion) ([]uint16, bool) {
 		}()
 		done <- u.Ports()
 	}()
-	select {
-	case p := <-done:
-		return p, true
-	case <-time.After(400 * time.Millisecond):
+	p, bad := runaway(done)
+	if bad {
 		c.dead = true
 		return nil, false
 	}
+	return p, true
 }
 
 func (c *puComp) check(u utils.PortUnion, bm *bitmap) (string, []string) {
 	var fails []string
 	ports, ok := c.callPorts(u)
 	if !ok {
-		return "hang", []string{"Ports() did not return within 400 ms (loop counter wrapped?)"}
+		return "hang", []string{"Ports() does not return: it keeps allocating (loop counter wraps at 65535?)"}
 	}
 	// normal form
 	for i, r := range u {
@@ -366,6 +410,9 @@ func (c *puComp) Gen(r *vh.RNG, n int, emit func(op string, tags ...string)) {
 		"5,4,3,2,1", "1-2,2-3,3-4", "65535-65535,0-0", "10-5", "1,,2", "1-", "-1", "1-2-3", " 80", "80 ", "0x50", "+80", "1_000",
 		"65530-65535,65535", "0-65534,65535", "0-32767,32768-65535", "65536-65537", "1-65536", "99999999999999999999999"}
 	for _, s := range fixed {
+		if c.dead {
+			break
+		}
 		emit("parse "+vh.Hex([]byte(s)), "fixed")
 	}
 	for i := 0; i < n && !c.dead; i++ {
